@@ -174,6 +174,9 @@ func GenDef(r *rand.Rand, p *Profile) Cfg {
 	}
 	taken := map[string]bool{} // names used anywhere (help / env bookkeeping)
 	nopt := 1 + r.Intn(p.MaxOpts)
+	if chance(r, 0.04) {
+		nopt = 18 + r.Intn(12) // now and then a program with very many options
+	}
 	envN := 0
 	for i := 0; i < nopt; i++ {
 		name := pick(r, namePool)
